@@ -48,16 +48,27 @@ def r1(ctx: Ctx) -> None:
     from .c01 import commit_point_call, validation
     cp = commit_point_call(ctx, f)
     read, cur, base, fields = validation(ctx, f)
+    def _reads_hint_etag(fn: FunctionInfo) -> bool:
+        for ff, m, _c in [(fn, x, None) for x in ctx.cfg(fn).calls()] + ctx.eff.transitive_calls(fn):
+            if ctx.eff.storage_op(m) == "read_file_with_etag" and fold_str(ctx, ff, path_arg(m), m.id) == hv:
+                return True
+        return False
+
     etag_reads = [n for n in ctx.calls(f, storage="read_file_with_etag") if fold_str(ctx, f, path_arg(n), n.id) == hv]
-    if not etag_reads:
-        raise AnalysisError("read_file_with_etag(HINT) vanished from MetadataManager.commit")
-    r = etag_reads[0]
-    # the etag argument of the commit point derives from r
+    # ... or a helper of the package that performs that read (the ETag then flows through its return value)
+    etag_reads += [n for n in g.calls() if n not in etag_reads and n.id != cp.id
+                   and any(t.module.short == "metadata_manager" and t.qname != f.qname and _reads_hint_etag(t)
+                           and not ctx.eff.reaches_function(t, {w.qname for w in hint_writers(ctx)})
+                           for t in ctx.eff.callees(f, n))]
     call = cp.ast
     assert isinstance(call, ast.Call)
     etag_arg = call.args[-1] if call.args else None
     eo = sl.origins(etag_arg, cp.id)
-    flows = r.ast in eo["calls"]
+    feeding = [n for n in etag_reads if n.ast in eo["calls"]]
+    if not etag_reads:
+        raise AnalysisError("no read of the pointer's ETag reaches MetadataManager.commit's conditional write")
+    r = feeding[0] if feeding else etag_reads[0]
+    flows = bool(feeding)
     # Option A: validated metadata depends on r
     b0 = next(iter(fields.values()))
     cur_org = sl.origins(ast.Name(id=cur, ctx=ast.Load()), b0.id)
